@@ -566,6 +566,79 @@ Definition check_lm_trace_run (co : list (Q * Q * Q)) (x0 nu0 : Q) (xs : list Q)
   | [] => false
   end.
 
+(* --- LM with two unknowns: the residual family of the harness (lm2_funcs), LA.solve by Cramer's rule, and the same one-step
+   trace correspondence as for one unknown.  LA.norm enters LM only through nu_0 = |g_0| (irrational in general): the harness
+   supplies the float ng0 as a CERTIFICATE and the model checks ng0^2 = |g_0|^2 to 1e-9 before using it; every later nu is
+   ng0 2^k, nu0 2^k or 0 (exact). *)
+Definition q_lm2F (p : Qc * Qc * Qc * Qc * Qc) (x : list Qc) : list Qc :=
+  let '(sg, a, b, c, d) := p in
+  match x with [x0; x1] => [sg * (a * (x1 - x0 * x0)); sg * (b - x0); sg * (c * x0 * x1 - d)]%Qc | _ => [] end.
+Definition q_lm2J (p : Qc * Qc * Qc * Qc * Qc) (x : list Qc) : list (list Qc) :=
+  let '(sg, a, b, c, d) := p in
+  match x with [x0; x1] => [[sg * (- (1 + 1) * a * x0); sg * a]; [sg * - (1); sg * 0]; [sg * (c * x1); sg * (c * x0)]]%Qc | _ => [] end.
+Definition q_solve2 (M : list (list Qc)) (g : list Qc) : list Qc :=
+  match M, g with
+  | [[m11; m12]; [m21; m22]], [g1; g2] =>
+      let det := (m11 * m22 - m12 * m21)%Qc in
+      [((g1 * m22 - m12 * g2) / det)%Qc; ((m11 * g2 - m21 * g1) / det)%Qc]
+  | _, _ => []
+  end.
+Definition q_norm_unused (v : list Qc) : Qc := 0%Qc.      (* LA.norm inside a step only fills a field no decision of the step reads *)
+Definition q_lm_step2 p nu0 := lm_step Qc 0%Qc 1%Qc Qcplus Qcmult Qcminus Qcopp Qcdiv qc_leb (q_lm2F p) (q_lm2J p) q_solve2 q_norm_unused 2 nu0.
+Definition q_lm_state_at2 (p : Qc * Qc * Qc * Qc * Qc) (x : list Qc) (nu : Qc) : q_lm_state :=
+  let r := q_lm2F p x in let J := q_lm2J p x in
+  let g := qmattvec 2 J r in
+  mk_lm Qc x r J (q_half_sq r) nu g 0%Qc.
+Definition q_lm_matrix2 (st : q_lm_state) : list (list Qc) := lm_matrix Qc 0%Qc 1%Qc Qcplus Qcmult 2 (lm_J Qc st) (lm_nu Qc st).
+Definition lm2_cancels (p : Qc * Qc * Qc * Qc * Qc) (x : list Qc) : bool :=
+  let '(sg, a, b, c, d) := p in
+  match x with
+  | [x0; x1] =>
+      let small (r S : Qc) := negb (Qle_bool (this S) 0) && Qle_bool (Qabs (this r)) ((1 # 1000000) * this S) in
+      let ab (q : Qc) : Qc := Q2Qc (Qabs (this q)) in
+      small (x1 - x0 * x0)%Qc (ab x1 + ab (x0 * x0))%Qc || small (b - x0)%Qc (ab b + ab x0)%Qc
+      || small (c * x0 * x1 - d)%Qc (ab (c * x0 * x1) + ab d)%Qc
+  | _ => false
+  end.
+Definition lm_undecidable2 (p : Qc * Qc * Qc * Qc * Qc) (nu0 : Qc) (st : q_lm_state) : bool :=
+  let x := lm_x Qc st in
+  let s := q_solve2 (q_lm_matrix2 st) (lm_g Qc st) in
+  let xtemp := qvsub x s in
+  let ftemp := q_half_sq (q_lm2F p xtemp) in
+  let num := (lm_f Qc st - ftemp)%Qc in
+  let ratio := lm_ratio Qc 0%Qc 1%Qc Qcplus Qcmult Qcminus Qcopp Qcdiv qc_leb (lm_f Qc st) ftemp x xtemp (lm_g Qc st) in
+  lm2_cancels p x || lm2_cancels p xtemp
+  || Qle_bool (Qabs (this num)) ((1 # 1000000000) * Qabs (this (lm_f Qc st)))
+  || q_near ratio 0 (1 # 1000000) || q_near ratio (1 # 4) (1 # 1000000) || q_near ratio (3 # 4) (1 # 1000000).
+Definition diag2 (M : list (list Qc)) : Qc * Qc * Qc := match M with [[a; b]; [_; d]] => (a, b, d) | _ => (0, 0, 0)%Qc end.
+(* observed per iteration: (M11, M12, M22) of the matrix handed to LA.solve and the flag `nu == 0` *)
+Fixpoint check_lm_trace2 (p : Qc * Qc * Qc * Qc * Qc) (nu0 nu : Qc) (xs : list (list Q)) (Ms : list (Q * Q * Q * bool)) : bool :=
+  match xs with
+  | [] => true
+  | x :: rest =>
+      match rest, Ms with
+      | x' :: _, (M11, M12, M22, z) :: Ms' =>
+          let st := q_lm_state_at2 p (qvec x) nu in
+          let '(m11, m12, m22) := diag2 (q_lm_matrix2 st) in
+          qc_close tol9 (qc M11) m11 && qc_close tol9 (qc M12) m12 && qc_close tol9 (qc M22) m22 &&
+          (Bool.eqb z (qc_eqb nu 0%Qc) || (negb (qc_eqb nu 0%Qc) && Qle_bool (this nu) ((1 # 1000000000000) * Qabs (this m11)))) &&
+          (if lm_undecidable2 p nu0 st then true
+           else let st' := q_lm_step2 p nu0 st in
+                qcl_close tol9 (qvec x') (lm_x Qc st') && check_lm_trace2 p nu0 (lm_nu Qc st') rest Ms')
+      | _, _ => true
+      end
+  end.
+Definition check_lm_trace2_run (sg a b c d : Q) (x0 : list Q) (nu0 ng0 : Q) (xs : list (list Q)) (Ms : list (Q * Q * Q * bool)) : bool :=
+  let p := (qc sg, qc a, qc b, qc c, qc d) in
+  let g0 := qmattvec 2 (q_lm2J p (qvec x0)) (q_lm2F p (qvec x0)) in
+  match xs with
+  | x :: _ => ql_eqb x x0 &&
+              (* certificate of LA.norm(g_0): ng0 >= 0 and ng0^2 = |g_0|^2 up to 1e-9 relative *)
+              Qle_bool 0 ng0 && q_close tol9 (ng0 * ng0) (this (qnormsq g0)) &&
+              check_lm_trace2 p (qc nu0) (qc ng0) xs Ms
+  | [] => false
+  end.
+
 (* --- wrappers --- *)
 Definition q_eqb_opt (a b : option (list Q)) : bool := opt_eqb ql_eqb a b.
 Definition info_eqb (a b : wr_info) : bool :=
